@@ -35,6 +35,10 @@ BINARY = [
     ('A+=B+B', lambda: Ins('EXPR', t=0, s1=1, s2=1, x=32 + 0)),
     ('A-=c*B', lambda: Ins('EXPR', t=0, s1=1, s2=1, x=64 + 10, c=1.5)),
     ('A+=iCommutator(B,B)', lambda: Ins('EXPR', t=0, s1=1, s2=1, x=32 + 12)),
+    ('V+=B+B (V self-owned, dimension of A)', lambda: Ins('EXPR', t=2, s1=1, s2=1, x=32 + 0)),
+    ('V-=c*B (V self-owned)', lambda: Ins('EXPR', t=2, s1=1, s2=1, x=64 + 10, c=1.5)),
+    ('V+=iCommutator(B,B) (V self-owned)', lambda: Ins('EXPR', t=2, s1=1, s2=1, x=32 + 12)),
+    ('V-=B (V self-owned)', lambda: Ins('PLAINDEC', t=2, s1=1)),
     ('A=B (A on external storage)', lambda: Ins('COPYASSIGN', t=0, s1=1)),
     ('A=move(B) (A on external storage)', lambda: Ins('MOVEASSIGN', t=0, s1=1)),
     ('A=B+B (A on external storage)', lambda: Ins('EXPR', t=0, s1=1, s2=1, x=0)),
@@ -89,8 +93,8 @@ def work(item):
                 log = []
                 s = st.clone()
                 s.access_hook = make_monitor(pool, max(d1, d2) if shared else d1, d2, log)
-                before = [raw_tuple(pool, s, k) for k in (0, 1)]
-                bv = [pool.buffer_values(s, b) for b in (0, 1)]
+                before = [raw_tuple(pool, s, k) for k in (0, 1, 2)]
+                bv = [pool.buffer_values(s, b) for b in (0, 1)] + [pool.values(s, 2)]
                 rs = pool.step(s, ins)
                 exstats.append(dict(pool.ex.stats))
                 prog = setup + [ins]
@@ -106,10 +110,13 @@ def work(item):
                         cand(key, '%s with dimensions (%d,%d) does not raise an exception (returns %r)' % (name, d1, d2, r.retval), prog, d1=d1, d2=d2, expect='throw')
                         ok = False
                         continue
-                    after = [raw_tuple(pool, r.state, k) for k in (0, 1)]
-                    av = [pool.buffer_values(r.state, b) for b in (0, 1)]
-                    if after != before or any(x is not y for b in (0, 1) for x, y in zip(av[b], bv[b])):
-                        cand(key, '%s with dimensions (%d,%d) throws but modifies an operand' % (name, d1, d2), prog, d1=d1, d2=d2, expect='throw')
+                    after = [raw_tuple(pool, r.state, k) for k in (0, 1, 2)]
+                    try:
+                        av = [pool.buffer_values(r.state, b) for b in (0, 1)] + [pool.values(r.state, 2)]
+                    except Exception:
+                        av = [[None]] * 3
+                    if after != before or any(len(av[b]) != len(bv[b]) or any(x is not y for x, y in zip(av[b], bv[b])) for b in (0, 1, 2)):
+                        cand(key, '%s with dimensions (%d,%d) throws but modifies an operand or the self-owned target' % (name, d1, d2), prog, d1=d1, d2=d2, expect='throw')
                         ok = False
                 if log:
                     cand(key, '%s with dimensions (%d,%d) accesses memory outside the operands\' components (%s of %d bytes at offset %d of a %d-double operand)' % (
